@@ -1,5 +1,6 @@
 """C04 - inbound payments are claimable only if complete and authentic; all-or-nothing (structural part)."""
 from engine import *
+import ordimpls
 import provenance
 import re
 
@@ -408,4 +409,5 @@ RULES = [
 	('04.q', 'no call hands a value named like one parameter of the callee to a different parameter (swapped type-compatible arguments; rules/provenance.py)', lambda F: provenance.swaps_for_property(F, 'C04', '04.q')),
 	('04.z', 'named protocol / policy constants in this property\'s files have their reviewed values (rules/provenance.py)', lambda F: provenance.consts_for_property(F, 'C04', '04.z')),
 	('04.v', 'field-versus-field comparisons (a received value against a limit, an id against an id) are the reviewed ones: same fields, same operator (rules/provenance.py)', lambda F: provenance.cmps_for_property(F, 'C04', '04.v')),
+	('04.o', 'hand-written eq / cmp / partial_cmp / hash impls in this property\'s files: same field on both sides, reviewed direction, no reviewed key lost, hash within eq (rules/ordimpls.py)', lambda F: ordimpls.for_property(F, 'C04', '04.o')),
 ]
